@@ -275,6 +275,72 @@ def native_rescale_replay(model):
     return dict(reproduced=False, note=f"{len(cands)} concrete boxes: bounds map onto bounds, maps mutually inverse")
 
 
+def native_rescale_onesided_replay(model):
+    """R1: the real RescaleObservation / rescale_box with one-sided target ranges on real bounded boxes: every inner bound and interior point maps into the declared box."""
+    inf = float("inf")
+    for lo, hi in (((-1.0, -2.0), (1.0, 3.0)), ((0.0, 0.0), (10.0, 5.0))):
+        for mn, mx in ((-inf, 0.0), (-inf, -5.0), (2.0, inf), (-inf, inf), ((-inf, 1.0), (0.0, inf))):
+            box = Box(jnp.array(lo, f32), jnp.array(hi, f32))
+            try:
+                nb, fwd, bwd = rescale_box(box, jnp.asarray(mn, f32), jnp.asarray(mx, f32))
+            except AssertionError:
+                continue
+            pts = np.stack([np.array(lo), np.array(hi), 0.5 * (np.array(lo) + np.array(hi))])
+            out = np.asarray(jax.vmap(fwd)(jnp.asarray(pts, f32)), np.float64)
+            dl, dh = np.asarray(nb.low, np.float64), np.asarray(nb.high, np.float64)
+            if np.any(out < dl - 1e-5) or np.any(out > dh + 1e-5):
+                return dict(reproduced=True, route="R1 (real rescale_box, one-sided target range)", inputs=dict(low=lo, high=hi, min=mn, max=mx),
+                            observed=dict(forward_of_low_high_mid=out.tolist(), declared_low=dl.tolist(), declared_high=dh.tolist()))
+    return dict(reproduced=False, note="one-sided target ranges: inner bounds and mid-points map into the declared box")
+
+
+def rescale_onesided_obligations(S, fn):
+    from lvc.extract import fork_paths, eval_traced
+    # symbolic part 1b: one-sided target ranges.  Per dimension the target is two-sided (F), lower-unbounded (L: min = -inf), upper-unbounded (U: max = +inf) or unbounded (B); the
+    # infinities are concrete, every finite bound symbolic, and the two isfinite masks rescale_box computes are fixed to the pattern (first call: min, second: max).  Declared box =
+    # Box(min, max); forward maps every value of the inner box [low, high] INTO it, and backward . forward = id
+    import itertools
+    pats = [p for p in itertools.product("FLUB", repeat=2) if set(p) != {"F"}]
+    for pat in pats:
+        pattern = "".join(pat)
+        ctx = Ctx()
+        n = len(pat)
+        low, high, x, mn_s, mx_s = [sym(ctx, nm, sd((n,), f32)) for nm in ("low", "high", "x", "min", "max")]
+        mn_fin = np.array([p in "FU" for p in pat])
+        mx_fin = np.array([p in "FL" for p in pat])
+        masks = iter([mn_fin, mx_fin])
+
+        def prog(lo_, hi_, mn_, mx_, x_):
+            mn_ = jnp.where(mn_fin, mn_, -jnp.inf)
+            mx_ = jnp.where(mx_fin, mx_, jnp.inf)
+            nb, fwd, bwd = rescale_box(Box(lo_, hi_), mn_, mx_)
+            return nb.low, nb.high, fwd(x_), bwd(fwd(x_))
+        with extract.patched((jnp, "isfinite", lambda a_: next(masks))):
+            paths = [p for p in fork_paths(prog, (low, high, mn_s, mx_s, x), raises=(AssertionError,)) if p[0] is not None]
+        if len(paths) != 1:
+            S.fact(f"rescale_box[{pattern}]/one-accepting-path", False, function=fn, what="exactly one accepting path", detail=len(paths))
+            continue
+        conds, (nlo, nhi, fx, bfx) = eval_traced(ctx, paths[0][0], paths[0][1])
+        pc = [ir.seq(c_.scalar(), d_) for c_, d_ in zip(conds, paths[0][2])]
+        inner = [z3.And(low.at((i,)) <= x.at((i,)), x.at((i,)) <= high.at((i,)), low.at((i,)) < high.at((i,))) for i in range(n)]
+        fin = [z3.And(t.at((i,)) > -ir.INF, t.at((i,)) < ir.INF) for t in (low, high, x, mn_s, mx_s) for i in range(n)] + [ir.INF_AXIOM]
+        fin += [mn_s.at((i,)) < mx_s.at((i,)) for i in range(n) if mn_fin[i] and mx_fin[i]]      # a two-sided target of width 0 has no inverse
+        goal = []
+        for i in range(n):
+            if mn_fin[i]:
+                goal += [ir.zreal(fx.at((i,))) >= ir.zreal(mn_s.at((i,))), ir.seq(nlo.at((i,)), mn_s.at((i,)))]
+            else:
+                goal.append(ir.seq(nlo.at((i,)), -ir.INF))
+            if mx_fin[i]:
+                goal += [ir.zreal(fx.at((i,))) <= ir.zreal(mx_s.at((i,))), ir.seq(nhi.at((i,)), mx_s.at((i,)))]
+            else:
+                goal.append(ir.seq(nhi.at((i,)), ir.INF))
+            goal.append(ir.seq(bfx.at((i,)), x.at((i,))))
+        S.prove(f"rescale_box[{pattern}]/forward-maps-the-inner-box-into-the-declared-box", ctx, sand(*goal), hyps=pc + inner + fin, function=fn, nl_budget_ms=5000, replay=native_rescale_onesided_replay,
+                what=f"per-dimension target pattern {pattern} (F two-sided, L min=-inf, U max=+inf, B both infinite): the declared box is Box(min, max), every inner value in [low, high] is mapped into it "
+                     "(a shift where one side is infinite), and backward undoes forward: RescaleObservation's observations are members of the space it declares")
+
+
 def unit_rescale(S):
     """rescale_box on a bounded box: new box = Box(min, max); forward/backward are affine, mutually inverse, and take the
     bounds exactly onto each other (over the reals): backward(min) = low, backward(max) = high, forward(low) = min, forward(high) = max.
@@ -347,6 +413,7 @@ def unit_rescale(S):
                 what="backward(forward(x)) = x and forward(backward(x)) = x for every x")
         S.prove(f"rescale_box[n={n}]/monotone-affine", ctx, sand(*[z3.And(ir.zreal(fx.at(i)) - ir.zreal(flo.at(i)) == (ir.zreal(fhi.at(i)) - ir.zreal(flo.at(i))) * ((ir.zreal(x.at(i)) - ir.zreal(low.at(i))) / (ir.zreal(high.at(i)) - ir.zreal(low.at(i))))) for i in range(n)]),
                 hyps=pc + strict, function=fn, nl_budget_ms=5000, replay=rp, what="forward is the affine interpolation: (f(x) - f(low)) = (f(high) - f(low)) * (x - low)/(high - low)")
+    rescale_onesided_obligations(S, fn)
     # symbolic part 2: the wrappers use the right direction and advertise the right space
     E = inner_env()
     ra = W.RescaleAction(E)
